@@ -69,6 +69,8 @@ MENU = [
     ("if-int-line", "X=A+.5:IF INT(X)=1 THEN {t}", None, set()),
     ("for-int", "X=B+1.5:FOR I=1 TO INT(X):{m}:NEXT", None, set()),
     ("gosub-in-for", "FOR I=1 TO 2:GOSUB 100:NEXT", None, set()),
+    ("on-goto-negint", "X=-B:ON INT(X)+4 GOTO {t},{u},{t},{u}", None, set()),
+    ("for-negint", "X=-A:FOR I=INT(X) TO 0:{m}:NEXT", None, set()),
     ("end", "END", None, set()),
     ("stop", "STOP", None, set()),
     ("if-end", "IF A=1 THEN END", None, set()),
@@ -166,6 +168,23 @@ def gen(run):
     return progs
 
 
+def gen_line0(run):
+    """ON..GOTO / ON..GOSUB lists over {0, 30, 40} in every position x selector 0..4; line 0 is a legal target"""
+    progs = []
+    for kw in ("GOTO", "GOSUB"):
+        for lst in itertools.product((0, 30, 40), repeat=3):
+            for ln in (2, 3):
+                targets = ",".join(str(x) for x in lst[:ln])
+                if kw == "GOTO":
+                    body = ['0 N=N+1:PRINT "Z";N:IF N>1 THEN 80', "5 S={A}", f"10 ON S GOTO {targets}", '20 PRINT "F":GOTO 80', '30 PRINT "3":GOTO 80', '40 PRINT "4":GOTO 80', '80 PRINT "E":END']
+                else:
+                    body = ['0 N=N+1:PRINT "Z";N:IF N>1 THEN RETURN', "5 S={A}", f"10 ON S GOSUB {targets}", '20 PRINT "F":GOTO 80', '30 PRINT "3":RETURN', '40 PRINT "4":RETURN', '80 PRINT "E":END']
+                progs.append(("\n".join(body) + "\n{B}", {"line0", "c:on-" + kw.lower() + "-line0", "needs-init"}))
+    run.states += len(progs)
+    run.transitions += len(progs)
+    return progs
+
+
 def work(chunk):
     res = []
     for text, feats in chunk:
@@ -175,6 +194,8 @@ def work(chunk):
             for oi, opts in enumerate(OPTSETS):
                 if "level2" in feats and QUICK and oi in (1, 2):
                     continue
+                if "needs-init" in feats and not opts.get("initialize_vars"):
+                    continue  # the visit counter of line 0 is read before it is assigned
                 v = sem.compare(src, opts, decb_horizon=400)
                 row.append((a, b, oi, v.kind, v.symptom, v.detail, v.out if v.kind == "violation" else None))
         res.append(row)
@@ -193,7 +214,7 @@ def run(run):
                 "non-trivial = skeleton with >= 1 construct on which at least one run produced a verdict")
     run.assumptions = ["Color BASIC: FOR is bottom-tested (body runs once for an empty range), NEXT without variable closes the innermost FOR, IF branches own the rest of the line, ELSE binds to the nearest IF",
                        "BASIC09: FOR is top-tested; programs whose Color BASIC run raises an error (NEXT without FOR, ...) are outside the fragment"]
-    progs = gen(run)
+    progs = gen(run) + [(t.replace("{B}", ""), f) for t, f in gen_line0(run)]
     i = 0
     decided = 0
     for res in core.pmap(work, progs, chunk=8):
